@@ -8,7 +8,7 @@ EXPLANATION = ("L1 reply senders are owned only by the driver's two routing maps
                "arms leaves the loop, a stream error and a failed socket write return Err; L3 on the caller side every send / recv / await "
                "on a channel is propagated with `?`, matched into an Err return or (finish only) logged - never unwrapped, never retried; "
                "L4 the request send (with `?`) precedes every await in the operation issue point; L5 the Unbind arm shuts the socket down "
-               "and closes the sink before acknowledging, and the acknowledgement is sent for every non-Single operation; L7 the transport wrapper's AsyncRead / AsyncWrite methods each delegate, per variant, to the same method of the wrapped stream (shutdown reaches the socket of every transport kind). Not decided: "
+               "and closes the sink before acknowledging, and the acknowledgement is sent for every non-Single operation; L6 the one-operation driver (StartTLS set-up) hands the connection back only on paths that have established that no reply is owed; L7 the transport wrapper's AsyncRead / AsyncWrite methods each delegate, per variant, to the same method of the wrapped stream (shutdown reaches the socket of every transport kind). Not decided: "
                "liveness itself (tokio wakes waiters; a stalled write eventually fails; select! fairness).")
 TRUSTED = ['dropping a tokio Sender wakes and fails its receiver', 'tokio select!/scheduler fairness']
 UNDECIDED = ['liveness under the scheduler', 'fault injection at every byte boundary (dynamic notion)']
@@ -228,6 +228,67 @@ def run(ctx):
                 if v and v != 'LdapOp::Single':
                     ctx.add('L5.ack-reached', v, loc(arm['body']), not hirq.diverges(arm['body']) and L.before(mm, a),
                             'the %s arm never reaches the acknowledgement: its caller would wait forever' % v)
+
+    # ---- L6 a driver that hands the connection back (the one-operation mode used while StartTLS is negotiated: its caller keeps
+    # the returned connection, and with it the routing maps) must not do so while a caller still waits for a reply: the waiting
+    # operation's sender would stay alive inside the kept connection and the operation would hang instead of failing.  Decided on
+    # the paths of the code that follows the driver loop (and of any `return Ok(..)` inside an arm): whenever such a path returns
+    # Ok with the driver in it and the path is possible in a mode other than the continuous one, it has established that the
+    # result map is empty.  (`drive()`, the continuous mode's only caller, discards the value, which drops the maps.)
+    import driver as drv
+    modes = [it for it in f.items.values() if it.get('kind') == 'Enum' and it['path'].startswith('ldap3::conn::') and
+             any(it['path'] in (inp or '') for inp in (f.items.get(C.loop_path, {}).get('inputs') or []))]
+    keeps = []
+    if modes and main_loop is not None:
+        mode_ty = modes[0]['path']
+        cont_variants = [v['name'] for v in modes[0]['variants'] if v['name'].lower().startswith('cont')]
+        # the block that holds the loop: the statements after it and the tail expression
+        holder = None
+        for n, c in walk(L.root):
+            if n['k'] == 'Block' and (any(st.get('e') is main_loop or st is main_loop or st.get('init') is main_loop for st in n.get('stmts', [])) or n.get('expr') is main_loop):
+                holder = n
+        tail_outs = []
+        if holder is not None:
+            idx = next((i for i, st in enumerate(holder.get('stmts', [])) if st.get('e') is main_loop or st is main_loop or st.get('init') is main_loop), None)
+            after = holder['stmts'][idx + 1:] if idx is not None else []
+            tail = {'k': 'Block', 'stmts': after, 'expr': holder.get('expr') if idx is not None else None, 'id': 'tail', 'ty': holder.get('ty'), 'sp': holder.get('sp')}
+            I = absx.Interp(f, L, result_combinators=True)
+            env = I.param_env()
+            for b, d in L.defs.items():
+                if d['kind'] == 'let' and d.get('src') is not None and d['src'].get('k') == 'Path' and d['src'].get('res') == 'local' and d['src']['bind'] in env and not d['proj']:
+                    env[b] = env[d['src']['bind']]
+            tail_outs = [o for o in I.ev(tail, absx.St(env)) if o.kind in ('val', 'ret')]
+        arm_rets = []
+        for role in C.arms:
+            if isinstance(C.arms[role], dict):
+                arm_rets += [o for o in drv.arm_paths(C, role)[0] if o.kind == 'ret']
+        def hands_back(v):
+            v = drv.norm_self(v)
+            return v[0] == 'ctor' and v[1] == 'Ok' and sem.has(v, lambda x: x == drv.SELF)
+        def continuous_only(o):
+            for a, t in o.st.pc:
+                if a[0] == 'is' and a[1][0] == 'param' and a[2].rsplit('::', 1)[-1] in cont_variants and t:
+                    return True
+                if a[0] == 'is' and a[1][0] == 'param' and a[2].startswith(mode_ty.rsplit('::', 1)[-1] + '::') and a[2].rsplit('::', 1)[-1] not in cont_variants and t is False and len(modes[0]['variants']) == 2:
+                    return True
+            return False
+        def no_waiter(o):
+            for a, t in o.st.pc:
+                a2 = drv.norm_self(a)
+                if a2[0] == 'call' and a2[1].rsplit('::', 1)[-1] == 'is_empty' and a2[2] and a2[2][0] == ('field', drv.SELF, C.resultmap) and t is True:
+                    return True
+                if a2[0] == 'bin' and a2[1] == 'Eq' and a2[3] == ('lit', 0) and a2[2][0] == 'call' and a2[2][1].rsplit('::', 1)[-1] == 'len' and a2[2][2] and a2[2][2][0] == ('field', drv.SELF, C.resultmap) and t is True:
+                    return True
+            return False
+        for o in tail_outs + arm_rets:
+            if not hands_back(o.val) or continuous_only(o):
+                continue
+            keeps.append(o)
+            ctx.add('L6.handed-back-connection-holds-no-waiter', 'after the loop|%s' % ','.join(('' if t else '!') + absx.fmt(a)[-40:] for a, t in o.st.pc)[:100], loc(main_loop), no_waiter(o),
+                    'in the one-operation mode the driver returns the connection to a caller that keeps it (StartTLS set-up) on a path that has not '
+                    'established that no reply is owed: when the peer closes, or sends something else, before answering, the pending operation\'s sender '
+                    'stays alive in the returned connection and connection establishment waits forever')
+        ctx.floor('L6', 'paths handing the connection back outside the continuous mode', len(keeps), 1)
 
     # ---- L7 the transport wrapper hands every AsyncRead / AsyncWrite call to the stream it wraps (Unbind's shutdown and close end there)
     transport_delegation(ctx, f)
